@@ -332,6 +332,7 @@ func runC15(c *Check) {
 	// ---- R3 errors of reads are checked
 	c.ruleReadErrorsChecked("R3", []string{"client"}, 100)
 	c.ruleWriteOnlyWhatSerialized("R6")
+	c.rulePreallocateOnlyAsCapacity("R8")
 }
 
 // readerFunctions: module functions that take a stream to read from.
